@@ -312,6 +312,7 @@ def run(repo: Repo, ctx) -> None:
     _r6(repo, ctx)
     _r7(repo, ctx)
     _r8(repo, ctx)
+    _r9(repo, ctx)
 
 
 TYPES = 'edb.pgsql.types'
@@ -345,6 +346,12 @@ def _name_rule(repo: Repo, mod, node_or_stmts, depth: int = 0, fn_node=None):
                     n.func, ast.Attribute) and n.func.attr == 'startswith' \
                     and n.args and isinstance(n.args[0], ast.Constant):
                 prefixes.add(n.args[0].value)
+                hit = True
+            elif isinstance(n, ast.Call) and isinstance(
+                    n.func, ast.Attribute) and n.func.attr == 'endswith' \
+                    and n.args and isinstance(n.args[0], ast.Constant):
+                # a further restriction of the verbatim names
+                prefixes.add('...' + n.args[0].value)
                 hit = True
         return (consts, prefixes) if hit else None
 
@@ -602,6 +609,52 @@ def _r8(repo: Repo, ctx) -> None:
            'called `source` or `target` gets no column: only link tables '
            'come with their own source / target columns', cp.loc,
            sample='skip only when isinstance(src.scls, Link)')
+
+
+def _r9(repo: Repo, ctx) -> None:
+    from ..absint import Facts, must_pass
+    from ..cfg import CFG
+    ctx.floor('C05.R9', 4)
+    # (a) dropping a stored property always goes through _delete_property
+    #     (a multi property owns a table that DROP TYPE does not remove)
+    dp = repo.func('edb.pgsql.delta.DeleteProperty._delete_innards')
+    ctx.saw(dp)
+    g = CFG(dp.node)
+    calls = [n.id for n in g.nodes if any(
+        norm(c.func) == 'self._delete_property' for c in g.node_calls(n))]
+    if not calls:
+        raise AnalysisError('C05.R9: DeleteProperty no longer calls '
+                            '_delete_property')
+    F = Facts({'source': True, 'prop.is_pure_computable(schema)': False},
+              dp.node)
+    ok = must_pass(g, F, calls) and bool(F.used)
+    ctx.ob('C05.R9', 'DeleteProperty:storage-always-released', ok,
+           'DeleteProperty skips _delete_property for some stored '
+           'properties (e.g. when the owning type is dropped as well): the '
+           '(source, target) table of a multi property is not part of the '
+           'type\'s table and stays behind', dp.loc,
+           sample='source and not computable -> _delete_property')
+    # (b) the relations built over link tables ask for the link-table
+    #     column of every pointer
+    im = repo.module('edb.pgsql.inheritance')
+    n = 0
+    for f in repo._funcs_of(im):
+        for c in ast.walk(f.node):
+            if isinstance(c, ast.Call) and norm(c.func).endswith(
+                    'get_pointer_storage_info'):
+                n += 1
+                ctx.saw(f)
+                ok = kwarg(c, 'link_bias') is not None
+                ctx.ob('C05.R9', f'inheritance.{f.name}:link_bias@L'
+                       f'{c.lineno - f.node.lineno}', ok,
+                       f'{f.name} asks for the storage of a pointer without '
+                       f'link_bias: for a single link that owns a table '
+                       f'(link properties) the answer is the column in the '
+                       f'source table, which the link table does not have',
+                       f.loc, sample='link_bias=isinstance(obj, Link)')
+    if n < 3:
+        raise AnalysisError(f'C05.R9: only {n} storage lookups in '
+                            f'edb.pgsql.inheritance')
 
 
 def _negated(test: ast.AST, node: ast.AST) -> bool:
